@@ -20,6 +20,7 @@ static void sb_ch(sb_t *s, char c) { sb_put(s, &c, 1); }
 static struct { char k[16]; char v[128]; int set; } vars[NVAR];
 static int dont_care;                      /* the input uses a construct whose value the statement leaves open */
 static int put_seen, store_uncertain, tmpdir_odd, len_unknown, quoted_word_seen;
+static int tilde_nohome_seen, tilde_nohome_drop;      /* a tilde with no home directory: kept (0) or dropped (1), both are accepted */
 static int rand_choice, random_calls, random_words, store_unknown;      /* a %put in an expansion that was cut at the limit may or may not have happened */
 static const char *ref_getvar(const char *k) { for (int i = 0; i < NVAR; i++) if (vars[i].set && !strcmp(vars[i].k, k)) return vars[i].v; return NULL; }
 static void ref_putvar(const char *k, const char *v)
@@ -143,7 +144,13 @@ static void ref_expand(const char *s, sb_t *o, int depth)
             else { sb_ch(o, c); sb_ch(o, p[1]); p++; }
         } else if (c == '~') {
             const char *h = getenv("HOME");
-            if (!in_single && !in_double && h && *h) sb_put(o, h, strlen(h)); else { if (!in_single && !in_double) dont_care = 1; sb_ch(o, c); }      /* (no home directory to put there: not specified) */
+            if (!in_single && !in_double && h && *h) sb_put(o, h, strlen(h));
+            else if (!in_single && !in_double) {
+                /* no home directory to put there (HOME unset or empty): whether the tilde stays or becomes that nothing is not
+                   specified -- but it is one or the other, and the text around it is what it was */
+                tilde_nohome_seen = 1;
+                if (!tilde_nohome_drop) sb_ch(o, c);
+            } else sb_ch(o, c);
         } else if (c == '$') {
             if (in_single) { sb_ch(o, c); continue; }
             {
@@ -197,11 +204,11 @@ char *conf_ref_expand(const char *text, int *dc)
 {
     sb_t o = { 0 };
     char *in = strdup(text);
-    dont_care = 0; len_unknown = 0;
+    dont_care = 0; len_unknown = 0; tilde_nohome_seen = 0; tilde_nohome_drop = 0;
     sb_put(&o, "", 0);
     ref_expand(in, &o, 0);
     free(in);
-    *dc = dont_care || o.n >= CONFIG_BUFF - 1;
+    *dc = dont_care || tilde_nohome_seen || o.n >= CONFIG_BUFF - 1;
     return o.b;
 }
 
@@ -241,7 +248,7 @@ static void one_pass(const plan_t *p, int pass)
             char *orig = strdup(b);
             static unsigned char vars_before[sizeof(vars)];
             memcpy(vars_before, vars, sizeof(vars));
-            dont_care = 0; put_seen = 0; len_unknown = 0; rand_choice = 0; random_calls = 0; random_words = 0; store_unknown = 0;
+            dont_care = 0; put_seen = 0; len_unknown = 0; rand_choice = 0; random_calls = 0; random_words = 0; store_unknown = 0; tilde_nohome_seen = 0; tilde_nohome_drop = 0;
             sb_put(&want, "", 0);
             { char *in = strdup(b); ref_expand(in, &want, 0); free(in); }
             if (store_uncertain && strcasestr(b, "%get")) dont_care = 1;
@@ -249,6 +256,21 @@ static void one_pass(const plan_t *p, int pass)
             if ((want.n >= CONFIG_BUFF - 1 || len_unknown) && put_seen) { store_uncertain = 1; probe_hit("put_in_an_expansion_cut_at_the_limit"); }
             paint_stack(pass ? 0xFF : 0x81, 90000);          /* the callee's frame alone is a 20 kB buffer, nested calls add theirs */
             ret = (char *)spifconf_shell_expand((spif_charptr_t)b);
+            if (ret && !dont_care && tilde_nohome_seen && want.n < CONFIG_BUFF - 1 && (strlen(b) != want.n || memcmp(b, want.b, want.n))) {
+                /* the other reading of a tilde without a home directory */
+                if (random_calls) dont_care = 1;
+                else {
+                    static unsigned char vars_after[sizeof(vars)];
+                    memcpy(vars_after, vars, sizeof(vars));
+                    memcpy(vars, vars_before, sizeof(vars));
+                    want.n = 0; put_seen = 0; len_unknown = 0; tilde_nohome_drop = 1;
+                    sb_put(&want, "", 0);
+                    { char *in = strdup(orig); ref_expand(in, &want, 0); free(in); }
+                    tilde_nohome_drop = 0;
+                    if (dont_care) memcpy(vars, vars_after, sizeof(vars));
+                    probe_hit("tilde_without_home_other_reading");
+                }
+            }
             if (ret && !dont_care && random_calls == 1 && want.n < CONFIG_BUFF - 1 && (strlen(b) != want.n || memcmp(b, want.b, want.n))) {
                 /* %random with differing words: any of them is right */
                 for (int c = 1; c < random_words; c++) {
